@@ -142,6 +142,66 @@ theorem cycle_check_iff_acyclic (n : Nat) (g : Graph) (new : List Dep)
     obtain ⟨hr, hb⟩ := ranked_of_acyclicSpec n _ hc h
     exact cycle_check_complete g new n _ hr (fun d _ => hb d.parent)
 
+/-- **acyclic_iff_no_closed_walk** — the specification's peeling decision is the standard notion: for
+    `n` checkables with all edges among them, peeling empties the graph exactly when there is no
+    non-empty closed walk (`Path succ v v`) along dependencies and implicit service → host edges. -/
+theorem acyclic_iff_no_closed_walk (n : Nat) (g : Graph) (hc : Closed n g) :
+    acyclicSpec n g = true ↔ ∀ v, ¬ Path (succs g) v v := by
+  constructor
+  · intro h v
+    exact ranked_no_cycle (ranked_of_acyclicSpec n g hc h).1 v
+  · exact acyclicSpec_of_no_cycle n g
+
+/-- **no_cycle_iff_ranked** — ranking certificates are exactly acyclicity (finite closed graphs). -/
+theorem no_cycle_iff_ranked (n : Nat) (g : Graph) (hc : Closed n g) :
+    (∀ v, ¬ Path (succs g) v v) ↔ ∃ r, RankedS (succs g) r := by
+  constructor
+  · intro h
+    exact ⟨_, (ranked_of_acyclicSpec n g hc (acyclicSpec_of_no_cycle n g h)).1⟩
+  · rintro ⟨r, hr⟩ v
+    exact ranked_no_cycle hr v
+
+/-- **cycle_check_iff_no_cycle** — the cycle checker against the standard definition of a cycle: with an
+    acyclic registered graph, a batch is accepted exactly when registered graph + batch + implicit
+    service → host edges contain no non-empty closed walk. -/
+theorem cycle_check_iff_no_cycle (n : Nat) (g : Graph) (new : List Dep)
+    (hc : Closed n (withNew g new)) (hg : ∀ v, ¬ Path (succs g) v v) :
+    (cycleCheck g new n).accepted = true ↔ ∀ v, ¬ Path (succs (withNew g new)) v v := by
+  rw [cycle_check_iff_acyclic n g new hc ((no_cycle_iff_ranked n g hc.of_withNew).1 hg)]
+  exact acyclic_iff_no_closed_walk n _ hc
+
+/-- **runtime_add_refused_unchanged** — a dependency (batch) added at runtime that closes a cycle is
+    refused and the registered graph stays exactly as it was; an addition that closes none is applied. -/
+theorem runtime_add_refused_unchanged (n : Nat) (g : Graph) (new : List Dep)
+    (hc : Closed n (withNew g new)) (hg : ∀ v, ¬ Path (succs g) v v) :
+    ((∃ v, Path (succs (withNew g new)) v v) → runtimeAdd g new n = (g, false)) ∧
+    ((∀ v, ¬ Path (succs (withNew g new)) v v) → runtimeAdd g new n = (withNew g new, true)) := by
+  have hiff := cycle_check_iff_no_cycle n g new hc hg
+  constructor
+  · rintro ⟨v, hv⟩
+    have : (cycleCheck g new n).accepted = false := by
+      cases hacc : (cycleCheck g new n).accepted with
+      | false => rfl
+      | true => exact absurd hv (hiff.1 hacc v)
+    simp [runtimeAdd, this]
+  · intro h
+    simp [runtimeAdd, hiff.2 h, withNew]
+
+/-- **runtime_adds_stay_acyclic** — whatever sequence of batches is attempted at runtime, the registered
+    graph never contains a cycle (so `IsReachable` keeps terminating, `terminates_on_accepted`). -/
+theorem runtime_adds_stay_acyclic (n : Nat) (batches : List (List Dep)) :
+    ∀ g : Graph, (∃ r, RankedS (succs g) r) → ∃ r, RankedS (succs (runtimeAdds n g batches)) r := by
+  induction batches with
+  | nil => intro g hg; exact hg
+  | cons b bs ih =>
+    intro g hg
+    simp only [runtimeAdds]
+    apply ih
+    unfold runtimeAdd
+    cases hacc : (cycleCheck g b n).accepted with
+    | false => simpa using hg
+    | true => simpa [withNew] using (cycle_check_sound g b n hg hacc).1
+
 /-- **model_load_meets_spec** — the specification predicate the driver evaluates on the implementation's
     accepted/rejected answer ("a configuration containing a cycle is rejected", decided by peeling,
     independently of the DFS) accepts the model's own verdict for every batch. -/
